@@ -165,7 +165,8 @@ def m_table():
         "C02": [("c02_hmc_step", m_hmc.c02_hmc_step), ("c02_reversible", m_hmc.c02_reversible)],
         "C07": [("c07_hmc_hidden_randomness", m_hmc.c07_hmc_hidden_randomness)],
         "C04": [("c04_adaptation", m_nuts.c04_adaptation)],
-        "C03": [("c03_build_tree", m_nuts.c03_build_tree)],
+        "C03": [("c03_build_tree", m_nuts.c03_build_tree), ("c03_step", m_nuts.c03_step)],
+        "C14": [("c14_hmc", m_hmc.c14_hmc), ("c14_nuts", m_nuts.c14_nuts)],
         "C15": [("c15_isotropic", m_dist.c15_isotropic), ("c15_gaussian2d", m_dist.c15_gaussian2d)],
         "C11": [("c11_split_rhat", m_stats.c11_split_rhat)],
         "C13": [("c13_trackers", m_stats.c13_trackers)],
